@@ -32,14 +32,21 @@ pub struct Case {
     queries: Vec<Q>,
 }
 
-pub struct Sizes;
+pub struct Sizes {
+    /// false: C17's size oracle; true: C05's reply discipline on the same worlds (stage `big-store`)
+    pub discipline: bool,
+}
 
 const HASH: Id = [0x17; 20];
 
 impl Stage for Sizes {
     type Case = Case;
     fn name(&self) -> &'static str {
-        "sizes"
+        if self.discipline {
+            "big-store"
+        } else {
+            "sizes"
+        }
     }
     fn cases(&self, tier: Tier) -> u32 {
         tier.pick(1500, 20_000)
@@ -107,7 +114,37 @@ impl Stage for Sizes {
                     3 => KQuery::GetPeers { id, info_hash: vec![0x18; 20], want: q.want },
                     _ => KQuery::Announce { id, info_hash: HASH.to_vec(), port: Some(1), token: vec![0; 20] },
                 };
-                let replies = solo.ask(src, &KMsg { tid, body: KBody::Query(body) }).await;
+                let is_get_peers = matches!(body, KQuery::GetPeers { .. });
+                let method = body.method();
+                let replies = solo.ask(src, &KMsg { tid: tid.clone(), body: KBody::Query(body) }).await;
+                if self.discipline {
+                    let what = format!("query #{n} ({method}, want {:?}, {}-byte tid, requester v6={}) with {} peers stored", q.want, q.tid_len, q.src_v6, c.k);
+                    if replies.len() != 1 {
+                        return Outcome::violation(if replies.is_empty() { "no-reply" } else { "several-replies" }, format!("{what}: {} replies", replies.len()));
+                    }
+                    match &replies[0] {
+                        Ok(m) if m.tid != tid => return Outcome::violation("tid-not-echoed", what),
+                        Ok(KMsg { body: KBody::Resp(r), .. }) => {
+                            if r.id != node_id {
+                                return Outcome::violation("wrong-id-in-reply", what);
+                            }
+                            if is_get_peers {
+                                if r.token.as_ref().map(|t| t.len()) != Some(20) {
+                                    return Outcome::violation("token-missing-or-wrong-length", format!("{what}: token {:?}", r.token.as_ref().map(|t| t.len())));
+                                }
+                                if let Some(v) = r.values.iter().find(|v| v.is_ipv6() != q.src_v6) {
+                                    return Outcome::violation("value-of-other-family", format!("{what}: {v}"));
+                                }
+                            } else if r.token.is_some() || !r.values.is_empty() {
+                                return Outcome::violation("extra-fields", what);
+                            }
+                        }
+                        Ok(KMsg { body: KBody::Error { code, .. }, .. }) if method == "announce_peer" && *code == 203 => {}
+                        Ok(m) => return Outcome::violation("wrong-reply", format!("{what}: {:?}", m.body)),
+                        Err(b) => return Outcome::violation("undecodable-reply", format!("{what}: {} bytes", b.len())),
+                    }
+                    continue;
+                }
                 for r in replies {
                     if let Err(bytes) = r {
                         if bytes.len() <= 1500 {
@@ -115,6 +152,9 @@ impl Stage for Sizes {
                         }
                     }
                 }
+            }
+            if self.discipline {
+                return Outcome::pass(c.k >= 100).label(match c.k { 0..=29 => "k<30", 30..=159 => "k:30-159", _ => "k>=160" });
             }
             let over: Vec<_> = net.oversize().into_iter().filter(|o| o.1 == node).collect();
             if let Some((t, _, to, len)) = over.iter().max_by_key(|o| o.3) {
@@ -136,6 +176,9 @@ impl Stage for Sizes {
         })
     }
     fn rule(&self) -> String {
+        if self.discipline {
+            return "C17's worlds (one real serving node, 0..24 table nodes of both families, k in 0..500 peers announced on one info-hash from distinct v4/v6 sources) with C05's oracle: each of 3..13 queries of every kind (want absent/n4/n6/both, tid length 0..32, requester of either family) gets exactly one reply with the echoed tid and the node's id; get_peers replies carry a 20-byte token and only values of the requester's family; others no token/values; announce with a bad token is refused with 203. Non-trivial: k >= 100".into();
+        }
         "one real serving node (v4/v6) whose table holds 0..16 v4 and 0..8 v6 contacts; k in 0..500 peers announced on one info-hash from distinct v4/v6 sources with valid tokens; then 3..13 queries of every kind (want absent/n4/n6/both, tid length 0..32, requester of either family). Oracle: every datagram the node handed to the network is <= 1500 bytes and every reply decodes with the independent codec. Non-trivial: k >= 100 (reply is size-limited, not content-limited)".into()
     }
 }
@@ -143,7 +186,7 @@ impl Stage for Sizes {
 pub fn spec() -> PropertySpec {
     PropertySpec {
         id: "C17",
-        stages: vec![Box::new(Sizes)],
+        stages: vec![Box::new(Sizes { discipline: false })],
         assumptions: vec!["Transaction ids up to 32 bytes as in the property's quantifier (a tid of ~1300 bytes makes any echo exceed 1500 bytes regardless of the reply's own content).".into()],
         explanation: "Oracle: length of every datagram passed to the socket by the node, from the simulated network's log.".into(),
     }
